@@ -34,7 +34,8 @@ NO hypothesis at all — every string, every list:
 
 Hypotheses `num_fields < 2³¹` and `leftNonzero` ("no bound of the list has the literal `0` as its left
 side" — a decidable predicate), inherited from `UserBounds::unpack` / `complement`
-(`BoundsLit.unpack_eq`, `BoundsLit.complement_eq`: `parts_length as i32`, `start as usize`):
+(`BoundsLit.unpack_eq`, `BoundsLit.complement_eq`: `i as i32 + 1`, `try_into::<i32>().expect(..)`,
+`start as usize`; `try_into_range` itself, repaired, computes in `i64` and no longer needs it):
 
 * `unpack_eq` — `UserBoundsList::unpack` = `unpackList`
 * `complement_eq` — `UserBoundsList::complement` = `complementList` (fillers kept, unresolvable bounds kept,
@@ -44,10 +45,13 @@ side" — a decidable predicate), inherited from `UserBounds::unpack` / `complem
 
 The hypotheses are NECESSARY (section 8, by evaluation of both sides):
 
-* `num_fields < 2³¹`: with 2³¹ fields `-f -1` unpacks to itself in Rust (the cast `parts_length as i32` is
-  `i32::MIN`, nothing resolves) where the model says field 2³¹; its complement is `-1` itself where the
-  model says `1:2147483647`.  The real program can get there only with a record of 2³¹ fields or more
-  (2 GiB in one line at least); see `Tuc.Props.BoundsLit` for what `try_into_range` does beyond.
+* `num_fields < 2³¹`: with 2³¹ fields `-f -1` PANICS in `unpack` (`i as i32 + 1` overflows on the slot
+  2³¹ − 1: the debug build; `try_into_range`, repaired, does resolve the bound) where the model says field
+  2³¹; the complement of `-f 1` panics in `expect("range was bigger than expected")` where the model says
+  `2:2147483648`.  (Until the repair of `try_into_range` the witnesses were: `-1` unpacks to itself, its
+  complement is `-1` itself — now `1` unpacks and `-1` complements as the model says: what decides is the
+  index the range reaches.)  The real program can get there only with a record of 2³¹ fields or more
+  (2 GiB in one line at least).
 * `leftNonzero`: on the bound `0:` (3 fields) `unpack` PANICS in Rust — `UserBounds::unpack` yields no slot
   at all (`start = -1 as usize`), so `list.into()` hits `expect("UserBoundsList must contain at least one
   UserBounds")` — where the model has three bounds; `complement` panics inside `UserBounds::complement`
@@ -1234,21 +1238,35 @@ def lastField : UserBoundsListL := ⟨[BoFL.bound (UserBoundsL.new (S (-1)) (S (
 /-- `0:`, which only `UserBounds::new` can build -/
 def zeroLeft : UserBoundsListL := ⟨[BoFL.bound (UserBoundsL.new (S 0) SideL.cont)], SideL.cont⟩
 
-/-- 2³¹ fields: `parts_length as i32` is `i32::MIN`, nothing resolves: `-1` unpacks to itself, where the
-    model says "field 2³¹" -/
+/-- the first field, `-f 1` -/
+def firstField : UserBoundsListL := ⟨[BoFL.bound (UserBoundsL.new (S 1) (S 1))], SideL.cont⟩
+
+/-- 2³¹ fields (`try_into_range`, repaired, resolves `-1` to `2³¹ − 1 .. 2³¹`; until the repair
+    `parts_length as i32` was `i32::MIN` and `-1` unpacked to itself): `i as i32 + 1` (userbounds.rs
+    l.268) overflows on the slot `i = 2³¹ − 1` — a panic of the debug build — where the model says
+    "field 2³¹", an index that no `Side` can hold -/
 example :
-    resMap UserBoundsListL.toModel (lastField.unpack 2147483648) =
-      .ok { list := [BoF.bound { l := Side.some (-1), r := Side.some (-1), isLast := true }],
-            lastInteresting := Side.some (-1) } ∧
+    lastField.unpack 2147483648 = .panic ∧
     unpackList (lastField.list.map BoFL.toModel) 2147483648 =
       .ok { list := [BoF.bound { l := Side.some 2147483648, r := Side.some 2147483648, isLast := true }],
             lastInteresting := Side.some 2147483648 } := by decide
 
-/-- 2³¹ fields: the complement of `-1` is `-1` itself, where the model says `1:2147483647` -/
+/-- 2³¹ fields: the complement of `1` is `2:2147483648` in the model; `UserBounds::from(1..2³¹)` panics
+    in `end.try_into::<i32>().expect("range was bigger than expected")` -/
 example :
+    firstField.complement 2147483648 = .panic ∧
+    complementList (firstField.list.map BoFL.toModel) 2147483648 =
+      .ok { list := [BoF.bound { l := Side.some 2, r := Side.some 2147483648, isLast := true }],
+            lastInteresting := Side.some 2147483648 } := by decide
+
+/-- 2³¹ fields, what the repair of `try_into_range` changed: `1` unpacks to itself and the complement
+    of `-1` is `1:2147483647`, as the model says (until the repair: nothing resolved) — what decides is
+    the index the range reaches, not the number of fields -/
+example :
+    resMap UserBoundsListL.toModel (firstField.unpack 2147483648) =
+      unpackList (firstField.list.map BoFL.toModel) 2147483648 ∧
     resMap UserBoundsListL.toModel (lastField.complement 2147483648) =
-      .ok { list := [BoF.bound { l := Side.some (-1), r := Side.some (-1), isLast := true }],
-            lastInteresting := Side.some (-1) } ∧
+      complementList (lastField.list.map BoFL.toModel) 2147483648 ∧
     complementList (lastField.list.map BoFL.toModel) 2147483648 =
       .ok { list := [BoF.bound { l := Side.some 1, r := Side.some 2147483647, isLast := true }],
             lastInteresting := Side.some 2147483647 } := by decide
